@@ -29,6 +29,10 @@ CHECKS = {
    text="PARTIAL: the fast subtyping judgement on the fieldless built-in types (Obj, Never, Int, Nat, Ratio, Float, Complex, Bool, Str, NoneType, Code, Frame, Error, Inf, NegInf, Type, ClassType, TraitType, Patch, NotImplementedType, Ellipsis, Failure). For all pairs Context::cheap_supertype_of answers with certainty and Context::supertype_of equals it; the relation is reflexive; transitive over all triples (Failure excluded: it is deliberately both top and bottom); Never is below and Obj above every type and nothing else is; Bool <: Nat <: Int <: Ratio <: Float <: Complex holds strictly and the numeric classes are unrelated to the other value classes. Kani loop-free over the finite domain (complete).",
    note="Not carried: unions, intersections, refinements (singleton/enum types), polymorphic containers, user classes and traits (structural_supertype_of / nominal_supertype_of: reaching them from these classes fails the harness), i.e. T <: (T or U), (T and U) <: T and 'enum type below its class' are outside. Arms of the table that bind erased payloads (Mono, Subr, Poly, FreeVar, ...) are R2-erased. Derived PartialEq on fieldless variants is structural.",
    technique=TECH_K),
+ "C08": dict(engine="verus", category="proof",
+   text="PARTIAL: the lexer's primitives and its comment / raw-identifier / string lexers (erg_parser/lex.rs, Token::new in token.rs; real text, Verus). consume/peek_* return exactly the char at the cursor or None past the end; emit_singleline_token reports a token at the column and line where it begins; lex_comment, lex_raw_ident, lex_single_str, lex_multi_line_str and lex_interpolation_mid (with their bodies lex_*_) are total - no unwrap on None at end of input, no index or counter overflow, the interpolation stack is never popped below its sentinel - and terminate (decreases: remaining input); a comment swallows no newline; after a string token returned with Ok, whatever escape sequences or line breaks it contains, the column of the next token equals the number of source characters since the start of its line (pos_ok), and the token itself is reported at the column where it began.",
+   note="Not carried: the ~400-line operator match in Iterator::next (incl. the EOF arm that emits one Dedent per open indent), number and symbol lexing, lex_space_indent_dedent/lex_indent_dedent, op_fix; hence neither totality of the whole lexer nor 'as many dedents as indents' is claimed. Position faithfulness is claimed for Ok results (after a reported error positions are not claimed). Assumed: std contracts of String/Vec operations (wrappers), literal lengths computed by the rewriter (R9), that the two chars of a \\x escape are hex digits when w_hex_to_char is reached (checked by code, not tracked), source texts below 2**28 chars.",
+   technique=TECH_V + "; representation invariant lexer_wf and position invariant pos_ok/line_fresh; loop invariants and decreases spliced by loop ordinal"),
  "C11": dict(engine="kani", category="proof",
    text="PARTIAL: the operator precedence table itself. For all pairs of token kinds, TokenKind::precedence orders the operators exactly as the documented table (member access > ** > prefix > * / // % > + - > shifts > && > ^^ > || > ranges > comparisons > and > or; same row <=> same precedence), no binary operator of the table is right-associative, and opening brackets bind weaker than every operator. Kani loop-free over all token kinds (complete).",
    note="Not carried: the reduce loop in Parser::try_reduce_expr that consumes the table (a change of `>=` there is invisible to this check), Lexer::op_fix (minus before a literal), method calls and parentheses. The documented table is transcribed from the property statement.",
